@@ -74,6 +74,37 @@ def make_configs(r, n):
     return cfgs
 
 
+def sched_configs(r, tier):
+    """Runs whose completion order is dictated: every prefix of choices of
+    length D (which of the blocked checks finishes next) x tail policy, over a
+    parallel-ddmin input (every third assertion must stay) and a permissive
+    hierarchical input."""
+    import itertools
+    out = []
+    plans = [(2, 3), (3, 1)] if tier == 'quick' else [(2, 6), (3, 4), (4, 3)]
+    for jobs, depth in plans:
+        for strat in ('ddmin', 'hierarchical'):
+            na = 12
+            text = ('(set-logic QF_LIA)\n(declare-const x Int)\n' +
+                    ''.join(f'(assert (> x {k + 100}))\n' for k in range(na))
+                    + '(check-sat)\n')
+            if strat == 'ddmin':
+                keep = [str(100 + k) for k in range(na) if k % 3 == 0]
+            else:
+                keep = ['100']
+            spec = {'mode': 'contains', 'markers': ['check-sat'] + keep}
+            for choices in itertools.product(range(jobs), repeat=depth):
+                for tail in ('fifo', 'lifo'):
+                    out.append((text, dict(spec),
+                                ['--strategy', strat, '-j', str(jobs)],
+                                {'strategy': strat, 'jobs': jobs,
+                                 'n': f's{jobs}{strat}{choices}{tail}',
+                                 'sched': {'jobs': jobs,
+                                           'choices': list(choices),
+                                           'tail': tail}}))
+    return out
+
+
 def judge(rep, items):
     for it in items:
         r = it.run
@@ -110,6 +141,8 @@ def main():
         'model: all behaviours of Hier.tla / Ddmin.tla for the listed '
         'configurations; runs: seeded configurations (input x command x '
         'strategy x -j 2/3/4) executed free-running and validated by TLC; '
+        'plus runs whose completion order is dictated by a scheduler the '
+        'command talks to (all choice prefixes x fifo/lifo tails); '
         'non-trivial = a run with >= 2 adoptions in which at least one '
         'success was discarded; distinct by (input, command, options)')
     rep.assumptions += [
@@ -131,6 +164,18 @@ def main():
     cfgs = make_configs(r, NRUNS[a.tier])
     items = S.validate(rep, S.execute(cfgs, label='c05'))
     judge(rep, items)
+    # completion orders enumerated, not sampled
+    scfgs = sched_configs(r, a.tier)
+    sitems = S.validate(rep, S.execute(scfgs, label='c05s', parallel=8))
+    judge(rep, sitems)
+    orders = {tuple(map(tuple, it.meta.get('decisions', []))) for it in sitems}
+    rep.cov['scheduled_runs'] = len(sitems)
+    rep.cov['distinct_completion_orders'] = len(orders)
+    rep.cov['scheduled_runs_with_discarded_success'] = sum(
+        1 for it in sitems
+        if sum(1 for e in it.run.events if e['ev'] == 'recv' and e.get('ok'))
+        > sum(1 for e in it.run.events if e['ev'] == 'write'))
+    S.cleanup(sitems)
     for it in items[:4]:
         rep.sample({'config': S.describe(it),
                     'writes': [e['toks'] for e in it.run.events
